@@ -635,7 +635,7 @@ func runC16(r *rt.Runner) {
 			c16Bundle(c, b, plans, fmt.Sprintf("list-recursion:%d", rec), "list-methods")
 		})
 	}
-	for i := 0; i < r.Scale(250, 8000); i++ {
+	for i := 0; i < r.Scale(250, 40000); i++ {
 		r.Do(fmt.Sprintf("api/%d", i), func(c *rt.C) {
 			g := &j5Gen{rng: c.Rand()}
 			withList := i%2 == 0
@@ -647,7 +647,7 @@ func runC16(r *rt.Runner) {
 			c16Bundle(c, b, plans, fmt.Sprintf("api:%d", i), class)
 		})
 	}
-	for i := 0; i < r.Scale(150, 5000); i++ {
+	for i := 0; i < r.Scale(150, 20000); i++ {
 		r.Do(fmt.Sprintf("bundle/%d", i), func(c *rt.C) {
 			bundle := (&j5Gen{rng: c.Rand()}).randomBundle()
 			if i%2 == 0 {
